@@ -297,6 +297,18 @@ def check(run):
         s = fam_fieldless(r, "F%d" % k) if fam == 0 else fam_data(r, "D%d" % k, lifetimes=(fam == 3))
         if s is not None:
             specs.append(s)
+    # every derive also as the ONLY strum derive of an enum that carries #[strum(crate = ..)] and the usual variant attributes:
+    # each derive has to register the `strum` helper attribute and honour the configured path on its own
+    r2 = gen.rng_for(run.seed, "c19-solo")
+    for rep in range(3 if thorough else 1):
+        for d in ALL15:
+            k += 1
+            s = fam_fieldless(r2, "S%d" % k)
+            s.derives = [d]
+            if d != "EnumDiscriminants":
+                s.extra_enum_attrs = [a for a in s.extra_enum_attrs if "strum_discriminants" not in a]
+            s.tags = ["solo-" + d]
+            specs.append(s)
     run.rule = RULE
     # use_phf arm: needs strum's phf feature, so it is compiled against the phf build under every configuration except no_std
     pspecs = [fam_phf(r, "P%d" % i) for i in range(200 if thorough else 40)]
@@ -357,9 +369,9 @@ def check(run):
         raise core.Inconclusive("configuration (b) does not expose a hard-coded ::strum: %d/%d probes still compile" % (len(probe) - exposed, len(probe)))
     run.extra["programs"] = len(specs)
     run.extra["configurations"] = CONFIGS
-    fams = {"field-less/15 derives": 0, "data/13 derives": 0, "lifetime/11 derives": 0}
+    fams = {"field-less/15 derives": 0, "data/13 derives": 0, "lifetime/11 derives": 0, "single derive": 0}
     for s in specs:
-        fams["field-less/15 derives" if s.name.startswith("F") else ("lifetime/11 derives" if s.generics in ("a", "aT") else "data/13 derives")] += 1
+        fams["single derive" if s.name.startswith("S") else "field-less/15 derives" if s.name.startswith("F") else ("lifetime/11 derives" if s.generics in ("a", "aT") else "data/13 derives")] += 1
     run.extra["families"] = fams
     for s in specs[:6]:
         run.samples.append({"enum": s.render(), "observed": {cfg: ("compiles" if res[cfg][s.name] is None else ("not compiled (phf needs std)" if res[cfg][s.name] == "skipped" else "rejected")) for cfg in CONFIGS}})
